@@ -7,10 +7,12 @@ package muxlib
 
 import (
 	"context"
+	"errors"
 	"fmt"
 	"net"
 	"reflect"
 	"strconv"
+	"strings"
 	"sync"
 	"time"
 
@@ -20,8 +22,10 @@ import (
 )
 
 type RevCase struct {
-	Providers []string `json:"providers"`
-	Mode      string   `json:"mode"` // real | script
+	Providers       []string `json:"providers"`
+	Mode            string   `json:"mode"`              // real | script
+	Late            []string `json:"late"`              // real providers that start listening only at a "listen" step
+	CallerTimeoutMs int      `json:"caller_timeout_ms"` // reverse.Caller.Timeout (default 4000)
 }
 
 type RevObs struct {
@@ -68,6 +72,9 @@ func runReverse(c *Case) *Obs {
 	service := rpc.NewService()
 	caller := reverse.NewCaller(service)
 	caller.Timeout = 4 * time.Second
+	if c.Rev.CallerTimeoutMs > 0 {
+		caller.Timeout = time.Duration(c.Rev.CallerTimeoutMs) * time.Millisecond
+	}
 	if err := service.Bind(ln); err != nil {
 		o.Env = err.Error()
 		return o
@@ -82,6 +89,42 @@ func runReverse(c *Case) *Obs {
 	proxies := map[string]*revProxy{}
 	pendingCalls := map[string]map[int]revCall{} // provider -> caller k -> call
 	var realProviders []*reverse.Provider
+	lateProviders := map[string]*reverse.Provider{}
+	if c.Rev.Mode == "real" {
+		// what the real providers fetch ("!") and return ("=") is observed at the service, with the identifiers
+		service.Use(func(ctx context.Context, name string, args []interface{}, next core.NextInvokeHandler) ([]interface{}, error) {
+			id := core.GetServiceContext(ctx).RequestHeaders().GetString("id")
+			if name == "=" && len(args) == 1 {
+				v := reflect.ValueOf(args[0])
+				for j := 0; v.Kind() == reflect.Slice && j < v.Len(); j++ {
+					rv := v.Index(j)
+					if rv.Kind() != reflect.Array || rv.Len() != 3 {
+						continue
+					}
+					text := fmt.Sprint(rv.Index(1).Interface()) + " " + fmt.Sprint(rv.Index(2).Interface())
+					e := ev("prov-send")
+					e.C, e.I, e.K = provIndex[id], num(rv.Index(0).Interface()), callerInText(text)
+					e.X = j // the slot of this result in the batch
+					rs.add(e)
+				}
+			}
+			res, err := next(ctx, name, args)
+			if name == "!" && err == nil && len(res) == 1 {
+				v := reflect.ValueOf(res[0])
+				for j := 0; v.Kind() == reflect.Slice && j < v.Len(); j++ {
+					cl := v.Index(j)
+					if cl.Kind() != reflect.Array || cl.Len() != 3 {
+						continue
+					}
+					e := ev("prov-recv")
+					e.C, e.I, e.K = provIndex[id], num(cl.Index(0).Interface()), callerInText(fmt.Sprint(cl.Index(2).Interface()))
+					e.X = j
+					rs.add(e)
+				}
+			}
+			return res, err
+		})
+	}
 	for pi, id := range c.Rev.Providers {
 		id := id
 		provIndex[id] = pi + 1
@@ -93,18 +136,27 @@ func runReverse(c *Case) *Obs {
 			p := reverse.NewProvider(cl, id)
 			p.RetryInterval = 10 * time.Millisecond
 			p.AddFunction(func(body string) string {
-				e := ev("prov-recv")
-				e.K, e.C = callerOf([]byte(body)), provIndex[id]
-				rs.add(e)
 				if d := delayOf([]byte(body)); d > 0 {
 					time.Sleep(time.Duration(d) * time.Millisecond)
 				}
-				e2 := ev("prov-send")
-				e2.K, e2.C = callerOf([]byte(body)), provIndex[id]
-				rs.add(e2)
 				return "R:" + body
 			}, "echo")
-			go p.Listen()
+			p.AddFunction(func(body string) (string, error) {
+				return "", errors.New("E:" + body)
+			}, "fail")
+			p.AddFunction(func(body string) string {
+				panic("B:" + body)
+			}, "boom")
+			late := false
+			for _, l := range c.Rev.Late {
+				if l == id {
+					late = true
+				}
+			}
+			lateProviders[id] = p
+			if !late {
+				go p.Listen()
+			}
 			realProviders = append(realProviders, p)
 		} else {
 			cl.RequestHeaders().Set("id", id)
@@ -125,7 +177,10 @@ func runReverse(c *Case) *Obs {
 		}
 	}()
 
-	invoke := func(k int, id string, timeoutMs int, delay int) {
+	invoke := func(k int, id string, timeoutMs int, delay int, method string) {
+		if method == "" || method == "0" {
+			method = "echo"
+		}
 		done := make(chan struct{})
 		parent, cancel := context.WithCancel(context.Background())
 		rs.mu.Lock()
@@ -144,9 +199,14 @@ func runReverse(c *Case) *Obs {
 				ctx, cf = context.WithTimeout(parent, time.Duration(timeoutMs)*time.Millisecond)
 				defer cf()
 			}
-			res, err := caller.InvokeContext(ctx, id, "echo", []interface{}{pl}, reflect.TypeOf(""))
+			res, err := caller.InvokeContext(ctx, id, method, []interface{}{pl}, reflect.TypeOf(""))
 			var out string
 			switch {
+			case err != nil && strings.Contains(err.Error(), pl):
+				// the error / panic of its own call: "E:<payload>" or a panic text holding "B:<payload>"
+				out = "ownerr:" + method
+			case err != nil && callerInText(err.Error()) >= 0:
+				out = fmt.Sprintf("othererr:%d", callerInText(err.Error()))
 			case err != nil:
 				out = classify(nil, err, nil)
 			case len(res) == 1:
@@ -175,8 +235,12 @@ func runReverse(c *Case) *Obs {
 			return 0.0
 		}
 		switch str(st[0]) {
-		case "invoke": // ["invoke", k, provider id, timeout_ms, delay_ms]
-			invoke(num(arg(1)), str(arg(2)), num(arg(3)), num(arg(4)))
+		case "invoke": // ["invoke", k, provider id, timeout_ms, delay_ms, method: echo | fail | boom]
+			invoke(num(arg(1)), str(arg(2)), num(arg(3)), num(arg(4)), str(arg(5)))
+		case "listen": // ["listen", provider id]: a late real provider starts polling: it fetches everything queued as one batch
+			if p := lateProviders[str(arg(1))]; p != nil {
+				go p.Listen()
+			}
 		case "sleep":
 			time.Sleep(time.Duration(num(arg(1))) * time.Millisecond)
 		case "fetch": // ["fetch", provider id]: scripted provider calls begin
@@ -292,4 +356,20 @@ func runReverse(c *Case) *Obs {
 	}
 	rs.mu.Unlock()
 	return o
+}
+
+// callerInText finds a payload "P<case>.<k>.<nonce>" inside a text (an error message, a printed argument list) and returns k
+func callerInText(t string) int {
+	i := strings.Index(t, "P")
+	for i >= 0 {
+		if k := callerOf([]byte(t[i:])); k >= 0 {
+			return k
+		}
+		j := strings.Index(t[i+1:], "P")
+		if j < 0 {
+			break
+		}
+		i += 1 + j
+	}
+	return -1
 }
